@@ -6,6 +6,8 @@ use crate::dispatch;
 use crate::iters::*;
 use moc::elem::range::MocRange;
 use moc::idx::Idx;
+use moc::mom::{HpxMOMIterator, HpxMomIter, MOMIterator};
+use moc::qty::Hpx;
 use moc::moc::range::RangeMOC;
 use moc::moc::{HasMaxDepth, RangeMOCIterator, RangeMOCIntoIterator};
 use moc::ranges::SNORanges;
@@ -245,6 +247,148 @@ pub fn check_case(rep: &mut Report, orc: &mut Oracle, m: &Moc, qs: &[(u64, u64)]
   ok
 }
 
+
+// ------------------------------------------------------------------ multi-order map
+struct MomObs {
+  sum_hpx: Result<f64, String>,
+  sum_zuniq: Result<f64, String>,
+  filt: Result<Vec<(f64, f64)>, String>,
+}
+fn impl_mom<T: Idx>(m: &Moc, cells: &[(u8, u64, i64)]) -> MomObs {
+  let mm: RangeMOC<T, Hpx<T>> = to_range_moc(m);
+  let uniq: Vec<(T, f64)> = cells.iter().map(|&(d, i, v)| (Hpx::<T>::uniq_hpx(d, T::from_u64(i)), v as f64)).collect();
+  let zuniq: Vec<(T, f64)> = cells.iter().map(|&(d, i, v)| (<Hpx<T> as moc::qty::MocQty<T>>::to_zuniq(d, T::from_u64(i)), v as f64)).collect();
+  MomObs {
+    sum_hpx: catch(|| HpxMomIter::<T, Hpx<T>, f64, _>::new(uniq.clone().into_iter()).sum_values_in_hpxmoc(&mm)),
+    sum_zuniq: catch(|| HpxMomIter::<T, Hpx<T>, f64, _>::new(zuniq.clone().into_iter()).sum_values_in_moc(&mm)),
+    filt: catch(|| HpxMomIter::<T, Hpx<T>, f64, _>::new(uniq.clone().into_iter()).retain_values_with_weights_in_hpxmoc(&mm).collect()),
+  }
+}
+
+/// MOM cells derived from the MOC: cells shallower than, at, and deeper than the MOC depth that
+/// contain / neighbour one of its bounds, plus random ones; small integer values (some negative)
+fn derive_mom(rng: &mut Rng, m: &Moc) -> Vec<(u8, u64, i64)> {
+  let md = m.q.max_depth(m.w);
+  let mut cells = Vec::new();
+  let k = rng.range(0, 8);
+  let mut bounds: Vec<u64> = m.r.iter().flat_map(|&(s, e)| [s, e]).collect();
+  bounds.push(0);
+  let ncm = m.q.n_cells_max(m.w);
+  for _ in 0..k {
+    let d = match rng.below(4) {
+      0 => rng.range(0, md as u64) as u8,
+      1 => m.d,
+      2 => m.d.saturating_sub(rng.range(1, 3) as u8),
+      _ => (m.d + rng.range(1, 3) as u8).min(md),
+    };
+    let sh = m.q.shift(m.w, d);
+    let ncells = ncm >> sh;
+    let base = if rng.chance(3, 4) { bounds[rng.below(bounds.len() as u64) as usize] } else { rng.below(ncm) };
+    let mut i = (base >> sh) as i64 + rng.range(0, 2) as i64 - 1;
+    if i < 0 { i = 0; }
+    let i = (i as u64).min(ncells - 1);
+    let v = rng.range(0, 72) as i64 - 8;
+    cells.push((d, i, v));
+  }
+  cells
+}
+
+pub fn check_mom(rep: &mut Report, orc: &mut Oracle, m: &Moc, cells: &[(u8, u64, i64)]) -> bool {
+  if m.q != Q::S {
+    return true;
+  }
+  let mut ok = true;
+  let kv = |f: &dyn Fn(u8, u64) -> u64| -> String {
+    let mut s = format!("{}", cells.len());
+    for &(d, i, v) in cells {
+      s.push_str(&format!(" {} {}", f(d, i), v));
+    }
+    s
+  };
+  let md = m.q.max_depth(m.w);
+  let uniq = |d: u8, i: u64| i + (4u64 << (2 * d as u32));
+  let zuniq = |d: u8, i: u64| ((i << 1) | 1) << (2 * (md - d) as u32);
+  let case_h = format!("MOM hpx s {} {} {} # d={}", m.w, ranges_str(&m.r), kv(&uniq), m.d);
+  let case_z = format!("MOM zuniq s {} {} {} # d={}", m.w, ranges_str(&m.r), kv(&zuniq), m.d);
+  let ans_h = orc.ask(case_h.split('#').next().unwrap());
+  let ans_z = orc.ask(case_z.split('#').next().unwrap());
+  let th: Vec<&str> = ans_h.split_whitespace().collect();
+  let tz: Vec<&str> = ans_z.split_whitespace().collect();
+  if th.first() != Some(&"OK") || th.len() < 3 || tz.first() != Some(&"OK") || tz.len() != 2 {
+    rep.violation("oracle-error", &case_h, "", &format!("{} | {}", ans_h, ans_z), "internal");
+    return false;
+  }
+  let s0 = 2 * md as i32; // shift of depth 0
+  let expect = |num: &str| -> f64 { num.parse::<f64>().unwrap() * (2.0f64).powi(-s0) };
+  let abs_v: f64 = cells.iter().map(|c| (c.2 as f64).abs()).sum();
+  let tol = 1e-11 * (1.0 + abs_v);
+  let o = match m.w {
+    16 => impl_mom::<u16>(m, cells),
+    32 => impl_mom::<u32>(m, cells),
+    _ => impl_mom::<u64>(m, cells),
+  };
+  rep.evaluations += 3;
+  for (what, got, num, case) in [("sum_values_in_hpxmoc", &o.sum_hpx, th[1], &case_h), ("sum_values_in_moc (zuniq keys)", &o.sum_zuniq, tz[1], &case_z)] {
+    let e = expect(num);
+    match got {
+      Ok(x) if (x - e).abs() <= tol => {}
+      other => {
+        ok = false;
+        rep.violation(&format!("{} differs from the sum of value x covered fraction", what), case, &format!("{:?}", other), &format!("{} (= {} / 2^{})", e, num, s0), "C03_mom_weighted_sum_exact");
+      }
+    }
+  }
+  // the filter: (value, cell_area x fraction) for the cells of positive fraction, in order
+  let n: usize = th[2].parse().unwrap_or(usize::MAX);
+  let mut exp_f: Vec<(f64, f64, u64, u64)> = Vec::new();
+  if th.len() == 3 + 3 * n {
+    for j in 0..n {
+      let v: f64 = th[3 + 3 * j].parse().unwrap();
+      let wd: u64 = th[4 + 3 * j].parse().unwrap();
+      let sh: u32 = th[5 + 3 * j].parse().unwrap();
+      let depth = md as u32 - sh / 2;
+      let area = std::f64::consts::FRAC_PI_3 / (1u64 << (2 * depth)) as f64;
+      exp_f.push((v, area, wd, 1u64 << sh));
+    }
+    // an entry whose exact fraction is below the tolerance of the f64 quotient (the code drops
+    // the low bits of both operands when the cell is wider than 2^52) may legitimately come out
+    // as 0.0 and be skipped; every other expected entry must be present, in order
+    let optional = |wd: u64, size: u64| (wd as f64 / size as f64) <= 1e-12;
+    let good = match &o.filt {
+      Ok(f) => {
+        let mut j = 0usize;
+        let mut all = true;
+        for &(v, wgt) in f.iter() {
+          while j < n && !(v == exp_f[j].0 && close(wgt / exp_f[j].1, exp_f[j].2, exp_f[j].3)) && optional(exp_f[j].2, exp_f[j].3) {
+            j += 1;
+          }
+          if j < n && v == exp_f[j].0 && close(wgt / exp_f[j].1, exp_f[j].2, exp_f[j].3) && wgt > 0.0 {
+            j += 1;
+          } else {
+            all = false;
+            break;
+          }
+        }
+        all && exp_f[j.min(n)..].iter().all(|e| optional(e.2, e.3))
+      }
+      Err(_) => false,
+    };
+    if !good {
+      ok = false;
+      rep.violation("retain_values_with_weights_in_hpxmoc differs from (value, area x covered fraction) of the cells of positive fraction", &case_h, &format!("{:?}", o.filt), &format!("{:?}", exp_f.iter().map(|&(v, a, w, s)| (v, a, w, s)).collect::<Vec<_>>()), "C03_mom_filter");
+    }
+  } else {
+    rep.violation("oracle-error", &case_h, "", &ans_h, "internal");
+    return false;
+  }
+  rep.count("queries:multi-order-map");
+  if !m.r.is_empty() && !cells.is_empty() {
+    rep.nontrivial(&case_h);
+  }
+  rep.sample(&format!("{} => {}", case_h, ans_h));
+  ok
+}
+
 /// query ranges derived from the MOC's own bounds
 fn derive_queries(rng: &mut Rng, m: &Moc) -> Vec<(u64, u64)> {
   let ncm = m.q.n_cells_max(m.w);
@@ -313,6 +457,10 @@ pub fn run(ctx: &Ctx) -> Report {
           check_case(&mut rep, &mut orc, &a, &qs, &b);
           let b2 = mk(&lists[(i * 13 + 5) % lists.len()]);
           check_case(&mut rep, &mut orc, &a, &[], &b2);
+          if q == Q::S {
+            let cells = derive_mom(&mut rng, &a);
+            check_mom(&mut rep, &mut orc, &a, &cells);
+          }
         }
       }
     }
@@ -333,6 +481,10 @@ pub fn run(ctx: &Ctx) -> Report {
     } else {
       let qs2 = derive_queries(&mut rng, &b);
       check_case(&mut rep, &mut orc, &b, &qs2, &a);
+    }
+    if q == Q::S {
+      let cells = derive_mom(&mut rng, &a);
+      check_mom(&mut rep, &mut orc, &a, &cells);
     }
   }
   rep.notes.push(format!("oracle calls: {}", orc.calls));
